@@ -171,6 +171,14 @@ def debug_logging():
         logging.disable(old[2])
 
 
+def model_arg(m, spec, salt):
+    """What is passed as the model argument: the Model object, or - for the default model, every other time - None, i.e. the
+    documented default of every public function (a call that names no model means Model())."""
+    if spec.get('name') == 'default' and len(spec) == 1 and salt % 2:
+        return None
+    return m
+
+
 def fmt(node, indent=None, compact=False, meta=None):
     return penman.format(Tree(node, metadata=meta or {}), indent=indent, compact=compact)
 
